@@ -1,8 +1,223 @@
-//! Implementation runner for the `history` area: add the modes of this area to `dispatch`.
+//! Implementation runner for the `history` area (C11): one `Command` value is driven through a
+//! history of by-reference calls (`try_get_matches_from_mut`, `build`, `render_help`,
+//! `render_long_help`, `render_usage`, clone-and-replace), then parses the final argv; the same
+//! argv is parsed on a fresh definition, on a clone of a fresh one and on a fresh one after
+//! `build()`.
+//!
+//! `(hist (cmd ...) (ops (parse x.. ...) (build) (help) (longhelp) (usage) (clone) ...) (argv x.. ...))`
+//!
+//! prints
+//!   `steps (<op> <observation> <state>)... final (reused <r>) (fresh <r>) (cloned <r>) (built <r>)`
+//! where an observation of a parse is the canonical parse result of the `parse` mode, `<r>` is
+//! that result followed by `msg <hex of the rendered message>` for errors, and `<state>` is the
+//! observable state of the whole tree: `(n <name> <bin_name|-> <display_name|-> (<arg ids>) <subs>...)`.
+use crate::hex;
+use crate::modes::parse::{build_cmd, kind_name, show_matches, show_result, EnvGuard};
 use crate::sexp::Sx;
+use clap::{ArgMatches, Command};
+use std::ffi::OsString;
+use std::os::unix::ffi::OsStringExt;
+use std::panic::{catch_unwind, AssertUnwindSafe};
+
+fn os(x: &Sx) -> OsString {
+    OsString::from_vec(x.bytes())
+}
+
+fn opt_hex(s: Option<&str>) -> String {
+    match s {
+        Some(s) => hex(s.as_bytes()),
+        None => "-".into(),
+    }
+}
+
+/// the observable state of the tree as it is right now (nothing is built by looking)
+pub fn show_state(c: &Command) -> String {
+    let ids: Vec<String> = c.get_arguments().map(|a| hex(a.get_id().as_str().as_bytes())).collect();
+    let mut out = format!(
+        "(n {} {} {} ({})",
+        hex(c.get_name().as_bytes()),
+        opt_hex(c.get_bin_name()),
+        opt_hex(c.get_display_name()),
+        ids.join(" ")
+    );
+    for s in c.get_subcommands() {
+        out.push(' ');
+        out.push_str(&show_state(s));
+    }
+    out.push(')');
+    out
+}
+
+/// result of a final parse: canonical matches, or kind/stream/code/help head plus the rendered message
+fn show_final(r: Result<ArgMatches, clap::Error>) -> String {
+    match r {
+        Ok(m) => format!("ok {}", show_matches(&m)),
+        Err(e) => {
+            let rendered = e.render().to_string();
+            let k = e.kind();
+            let stream = if e.use_stderr() { "stderr" } else { "stdout" };
+            // the first line of a help screen identifies the level (as in the `parse` mode)
+            let head = match k {
+                clap::error::ErrorKind::DisplayHelp | clap::error::ErrorKind::DisplayHelpOnMissingArgumentOrSubcommand => {
+                    format!(" {}", hex(rendered.lines().next().unwrap_or("").as_bytes()))
+                }
+                _ => String::new(),
+            };
+            format!("err {} {} {}{} msg {}", kind_name(k), stream, e.exit_code(), head, hex(rendered.as_bytes()))
+        }
+    }
+}
+
+fn panic_msg(p: Box<dyn std::any::Any + Send>) -> String {
+    let m = p.downcast_ref::<String>().cloned().or_else(|| p.downcast_ref::<&str>().map(|s| s.to_string())).unwrap_or_default();
+    m.replace(['\n', '\t', '(', ')'], " ")
+}
+
+/// one by-reference call under `catch_unwind`: a panic is the observation `PANIC`
+fn guarded<F: FnOnce() -> String>(f: F) -> String {
+    match catch_unwind(AssertUnwindSafe(f)) {
+        Ok(s) => s,
+        Err(_) => "PANIC".to_string(),
+    }
+}
+
+fn apply_op(cur: &mut Command, op: &Sx, root_built: bool) -> String {
+    match op.head() {
+        "parse" => {
+            let av: Vec<OsString> = op.args().iter().map(os).collect();
+            show_result(cur.try_get_matches_from_mut(av))
+        }
+        "build" => {
+            cur.build();
+            "unit".to_string()
+        }
+        "help" => format!("r {}", hex(cur.render_help().to_string().as_bytes())),
+        "longhelp" => format!("r {}", hex(cur.render_long_help().to_string().as_bytes())),
+        "usage" => format!("r {}", hex(cur.render_usage().to_string().as_bytes())),
+        "clone" => {
+            *cur = cur.clone();
+            "unit".to_string()
+        }
+        // what `did_you_mean_flag` does to the level that rejected an unknown long flag:
+        // `_build_self(false)` on each of its subcommands (reached here through the public
+        // `render_usage`); only levels the parser has been to (root built / bin name set)
+        "sugg" => {
+            let mut node = Some(cur);
+            let mut ok = root_built;
+            for n in op.args() {
+                if !ok {
+                    break;
+                }
+                let name = String::from_utf8(n.bytes()).unwrap();
+                node = node.and_then(|c| c.get_subcommands_mut().find(|s| s.get_name() == name));
+                ok = node.as_ref().map(|c| c.get_bin_name().is_some()).unwrap_or(false);
+            }
+            if ok {
+                if let Some(c) = node {
+                    for s in c.get_subcommands_mut() {
+                        let _ = s.render_usage();
+                    }
+                }
+            }
+            "unit".to_string()
+        }
+        x => panic!("hist op {x}"),
+    }
+}
+
+fn hist(a: &[Sx]) -> String {
+    let mut env = EnvGuard(vec![]);
+    let spec = a[0].args();
+    let fresh = match catch_unwind(AssertUnwindSafe(|| {
+        let c = build_cmd(spec, &mut env);
+        let mut probe = c.clone();
+        probe.build();
+        c
+    })) {
+        Ok(c) => c,
+        Err(p) => return format!("INVALID {}", panic_msg(p)),
+    };
+    let argv: Vec<OsString> = a[2].args().iter().map(os).collect();
+
+    let mut cur = fresh.clone();
+    let mut out = String::from("steps");
+    // the root is built by every by-reference call
+    let mut root_built = false;
+    let mut history_panicked = false;
+    for op in a[1].args() {
+        if !matches!(op.head(), "clone" | "sugg") {
+            root_built = true;
+        }
+        let obs = guarded(|| apply_op(&mut cur, op, root_built));
+        if obs == "PANIC" {
+            // the same call on a fresh definition: does it panic there too?
+            let mut f = fresh.clone();
+            let fresh_obs = guarded(|| apply_op(&mut f, op, false));
+            let fresh_kind = if fresh_obs == "PANIC" { "PANIC" } else { "fine" };
+            out.push_str(&format!(" ({} (PANIC {}) (n x - - ()))", op.head(), fresh_kind));
+            history_panicked = true;
+            break;
+        }
+        out.push_str(&format!(" ({} ({}) {})", op.head(), obs, show_state(&cur)));
+    }
+    if history_panicked {
+        // the state after a panic is unspecified: no final parse on it
+        cur = fresh.clone();
+    }
+    let reused = guarded(|| show_final(cur.try_get_matches_from_mut(argv.clone())));
+    let end_state = show_state(&cur);
+    let mut f = fresh.clone();
+    let fresh_r = guarded(|| show_final(f.try_get_matches_from_mut(argv.clone())));
+    let fresh_state = show_state(&f);
+    // a definition built again from the spec (not a clone of anything)
+    let mut f2 = build_cmd(spec, &mut env);
+    let fresh2_r = guarded(|| show_final(f2.try_get_matches_from_mut(argv.clone())));
+    let mut cl = fresh.clone().clone();
+    let cloned_r = guarded(|| show_final(cl.try_get_matches_from_mut(argv.clone())));
+    let mut b = fresh.clone();
+    let built_r = guarded(|| {
+        b.build();
+        show_final(b.try_get_matches_from_mut(argv.clone()))
+    });
+    // by-value entry point on a fresh definition
+    let byval_r = guarded(|| show_final(fresh.clone().try_get_matches_from(argv)));
+    format!(
+        "{out} final (reused {reused}) (fresh {fresh_r}) (fresh2 {fresh2_r}) (cloned {cloned_r}) (built {built_r}) (byval {byval_r}) (end {end_state}) (freshend {fresh_state})"
+    )
+}
+
+/// `(build2 (cmd ...))`: `build()` twice; the observable state after the first and the second call
+/// and the help rendered after each
+fn build2(a: &[Sx]) -> String {
+    let mut env = EnvGuard(vec![]);
+    let spec = a[0].args();
+    let mut c = match catch_unwind(AssertUnwindSafe(|| {
+        let c = build_cmd(spec, &mut env);
+        let mut probe = c.clone();
+        probe.build();
+        c
+    })) {
+        Ok(c) => c,
+        Err(_) => return "INVALID".into(),
+    };
+    c.build();
+    let s1 = show_state(&c);
+    let h1 = guarded(|| hex(c.clone().render_long_help().to_string().as_bytes()));
+    // the second call under its own guard: a panic here is a panic of the re-entered build only
+    let second = guarded(|| {
+        c.build();
+        let s2 = show_state(&c);
+        let h2 = hex(c.clone().render_long_help().to_string().as_bytes());
+        format!("{s2} {h2}")
+    });
+    format!("(first {s1} {h1}) (second {second})")
+}
 
 /// Returns `Some(result)` when `head` is a mode of this area.
 pub fn dispatch(head: &str, args: &[Sx]) -> Option<String> {
-    let _ = (head, args);
-    None
+    match head {
+        "hist" => Some(hist(args)),
+        "build2" => Some(build2(args)),
+        _ => None,
+    }
 }
